@@ -66,6 +66,10 @@ def effects(mod, stmts, env):
                     e.assigned.append(t.value.id)
             else:
                 raise Unsupported(node, 'assignment target is outside the supported subset')
+        elif isinstance(t, ast.Attribute) and isinstance(t.value, ast.Name) and t.value.id in env.structs:
+            key = mod.struct_field(env.structs[t.value.id], t.value.id, t.attr, node)
+            if key not in e.assigned:
+                e.assigned.append(key)
         elif isinstance(t, ast.Attribute) and is_obj(env, t.value) and t.attr in mod.properties:
             f = mod.funs.get('%s.%s.setter' % (mod.cls, t.attr))
             if f is None:
@@ -386,16 +390,35 @@ def assign(s, target, value, env, ctx, k):
                 return k(e3)
             return bind_call(env, ctx, f, c, cq, s, kk)
         v, t = expr(env, value, env.vars[target.id][1] if target.id in env.vars else None)
+        if isinstance(value, ast.Attribute) and isinstance(value.value, ast.Name) and value.value.id in env.structs and t[0] == 'list':
+            mod.aliases.append((target.id, mod.struct_field(env.structs[value.value.id], value.value.id, value.attr, s), s))
         if target.id in env.vars and env.vars[target.id][1] != t:
             raise Unsupported(s, 'local %s changes type from %s to %s' % (target.id, env.vars[target.id][1], t))
         e2.vars[target.id] = (cq, t)
         e2.funopts.pop(target.id, None)
         e2.tables.pop(target.id, None)
         return let(cq, v, k(e2))
+    if isinstance(target, ast.Attribute) and isinstance(target.value, ast.Name) and target.value.id in env.structs:
+        key = mod.struct_field(env.structs[target.value.id], target.value.id, target.attr, s)
+        v, t = expr(env, value, env.vars[key][1])
+        if t != env.vars[key][1]:
+            raise Unsupported(s, 'store of a %s into field %s of type %s' % (t, key, env.vars[key][1]))
+        e2.vars[key] = (env.vars[key][0], t)
+        return let(env.vars[key][0], v, k(e2))
     if isinstance(target, ast.Tuple):
-        if not (isinstance(value, ast.Tuple) and len(value.elts) == len(target.elts)
-                and all(isinstance(t, ast.Name) for t in target.elts)):
-            raise Unsupported(s, 'tuple assignment other than a, b = e1, e2')
+        if not all(isinstance(t, ast.Name) for t in target.elts):
+            raise Unsupported(s, 'tuple assignment to something other than names')
+        if not isinstance(value, ast.Tuple):
+            v, vt = expr(env, value)
+            if vt[0] != 'tuple' or len(vt) - 1 != len(target.elts):
+                raise Unsupported(s, 'unpacking of a %s into %d names' % (vt[0], len(target.elts)))
+            for t, ty in zip(target.elts, vt[1:]):
+                if t.id in env.vars and env.vars[t.id][1] != ty:
+                    raise Unsupported(s, 'local %s changes type' % t.id)
+                e2.vars[t.id] = (cname(t.id), ty)
+            return let("'(%s)" % ', '.join(cname(t.id) for t in target.elts), v, k(e2))
+        if len(value.elts) != len(target.elts):
+            raise Unsupported(s, 'tuple assignment of different lengths')
         vals = [expr(env, v) for v in value.elts]
         names = []
         for t, (v, ty) in zip(target.elts, vals):
@@ -505,12 +528,14 @@ def if_stmt(s, rest, env, ctx, tail):
         return wrap(block(s.body, et, ctx, k), block(s.orelse, ee, ctx, k))
     if not eb.writes and not eb.exc:
         # pure branches: they only (re)bind locals; merge them through a tuple
-        merged = [v for v in eb.assigned]
-        for v in merged:
-            inb = v in effects(ctx.mod, s.body, env).assigned
-            ino = v in effects(ctx.mod, s.orelse, env).assigned
-            if not (inb and ino) and v not in env.vars:
-                raise Unsupported(s, 'local %s is assigned in only one branch and not defined before' % v)
+        merged = []
+        ab, ao = effects(ctx.mod, s.body, env).assigned, effects(ctx.mod, s.orelse, env).assigned
+        for v in eb.assigned:
+            if v in env.vars or (v in ab and v in ao):
+                merged.append(v)
+            elif uses_name(rest, v):
+                raise Unsupported(s, 'local %s is assigned in only one branch, not defined before, and used afterwards' % v)
+        merged = by_first_use(merged, [s])
         if not merged:
             raise Unsupported(s, 'if statement without any effect')
         types = {}
@@ -527,9 +552,9 @@ def if_stmt(s, rest, env, ctx, tail):
         b = block(s.orelse, ee, sub, out)
         e2 = env.fork()
         for v in merged:
-            e2.vars[v] = (cname(v), types[v])
+            e2.vars[v] = (cname(v.replace('.', '_')), types[v])
             e2.funopts.pop(v, None)
-        names = [cname(v) for v in merged]
+        names = [cname(v.replace('.', '_')) for v in merged]
         pat = names[0] if len(names) == 1 else "'(%s)" % ', '.join(names)
         return let(pat, wrap(a, b), k(e2))
     # effectful, non-leaving branches: the if is a sub-computation of its own effect class
@@ -541,6 +566,23 @@ def if_stmt(s, rest, env, ctx, tail):
     a = block(s.body, et, sub, lambda e: sub.ret_(e, 'tt', s))
     b = block(s.orelse, ee, sub, lambda e: sub.ret_(e, 'tt', s))
     return bind_sub(env, ctx, sub, wrap(a, b), s, k)
+
+
+def by_first_use(names, stmts):
+    """order variables by their first occurrence in the source of stmts"""
+    pos = {}
+    for st in stmts:
+        for n in ast.walk(st):
+            nm = None
+            if isinstance(n, ast.Name):
+                nm = n.id
+            elif isinstance(n, ast.Attribute) and isinstance(n.value, ast.Name):
+                nm = '%s.%s' % (n.value.id, n.attr)
+            if nm in names:
+                p = (n.lineno, n.col_offset)
+                if nm not in pos or p < pos[nm]:
+                    pos[nm] = p
+    return sorted(names, key=lambda v: pos.get(v, (10 ** 9, 0)))
 
 
 def dead(node):
@@ -575,7 +617,7 @@ def for_stmt(s, env, ctx, k):
     it, et = iterable(env, s.iter)
     be = effects(mod, s.body, env)
     targets = [n.id for n in ast.walk(s.target) if isinstance(n, ast.Name)]
-    carried = [v for v in env.vars if v in be.assigned and v not in targets]
+    carried = by_first_use([v for v in env.vars if v in be.assigned and v not in targets], s.body)
     state = [c for c in ctx.state if c in be.writes] + carried
     for w in be.writes:
         if w not in ctx.state:
